@@ -435,6 +435,64 @@ def comprehension(it, st, node, flavour: str) -> V:
                 st.env.pop(n, None)
 
 
+# keys of the request/response `extensions` mappings that contracts talk about; a filtered copy of an
+# opaque mapping is described by ground facts at these keys (plus every string literal of the
+# enclosing function), never by a quantified axiom
+EXT_KEY_VOCAB = ["timeout", "trace", "sni_hostname", "target", "connect", "read", "write", "pool",
+                 "http_version", "reason_phrase", "network_stream", "stream_id"]
+
+
+def dict_comprehension(it, st, node) -> V:
+    """{k: v for k, v in M.items() if COND(k)} over an opaque mapping M: a fresh mapping R with, for
+    every key literal c of the vocabulary, `c in R` <=> `c in M` and COND(c), and
+    R.get(c, d) == (M.get(c, d) if COND(c) else d) for d in {None, {}}.  Anything else is unsupported."""
+    eng = it.eng
+    if len(node.generators) != 1:
+        raise Unsupported(f"{it.site(node)}: nested dict comprehension")
+    gen = node.generators[0]
+    tgt = gen.target
+    if not (isinstance(tgt, ast.Tuple) and len(tgt.elts) == 2 and all(isinstance(e, ast.Name) for e in tgt.elts)
+            and isinstance(node.key, ast.Name) and node.key.id == tgt.elts[0].id
+            and isinstance(node.value, ast.Name) and node.value.id == tgt.elts[1].id
+            and isinstance(gen.iter, ast.Call) and isinstance(gen.iter.func, ast.Attribute)
+            and gen.iter.func.attr == "items" and not gen.iter.args):
+        raise Unsupported(f"{it.site(node)}: dict comprehension other than a key-filtered copy")
+    src = eng.unbox(st, it.eval(st, gen.iter.func.value))
+    if isinstance(src, VDict):
+        out = {}
+        saved_env = dict(st.env)
+        for k, v in src.items.items():
+            st.env[tgt.elts[0].id] = _key_value(k)
+            st.env[tgt.elts[1].id] = v
+            if all(it.eval_cond(st, c, label=f"dictcomp-if@{node.lineno}") for c in gen.ifs):
+                out[k] = v
+        st.env.clear(); st.env.update(saved_env)
+        return VDict(out)
+    if not isinstance(src, VVal):
+        raise Unsupported(f"{it.site(node)}: dict comprehension over {src!r}")
+    st.counter += 1
+    r = z3.Const(f"dictcomp!{st.counter}", ValS)
+    vocab = list(EXT_KEY_VOCAB)
+    fn = it.fi.node if getattr(it, "fi", None) is not None else None
+    for n in ast.walk(fn) if fn is not None else []:
+        if isinstance(n, ast.Constant) and isinstance(n.value, str) and n.value not in vocab and len(n.value) < 40:
+            vocab.append(n.value)
+    saved_env = dict(st.env)
+    try:
+        for c in vocab:
+            st.env[tgt.elts[0].id] = VStr(z3.StringVal(c))
+            st.counter += 1
+            st.env[tgt.elts[1].id] = VVal(dget(src.t, z3.StringVal(c), none_val))
+            cond = eng.z_and([pure_cond(it, st, ci) for ci in gen.ifs]) if gen.ifs else z3.BoolVal(True)
+            cs = z3.StringVal(c)
+            eng.assume(st, dhas(r, cs) == z3.And(dhas(src.t, cs), cond))
+            for d in (none_val, empty_dict_val):
+                eng.assume(st, dget(r, cs, d) == z3.If(cond, dget(src.t, cs, d), d))
+    finally:
+        st.env.clear(); st.env.update(saved_env)
+    return VVal(r)
+
+
 def _is_eta_hdr(t, x):
     """mk_hdr(hk(x), hv(x)) is x (datatype eta rule)"""
     t = z3.simplify(t)
@@ -663,6 +721,16 @@ def _minmax(is_min):
             for t in ts[1:]:
                 r = z3.If(t < r, t, r) if is_min else z3.If(t > r, t, r)
             return VReal(r)
+        if all(isinstance(v, (VInt, VReal, VVal)) for v in vals):
+            # opaque operands are taken to be numbers (the code guards them with `is not None`);
+            # the result is one of the operands, as in Python
+            ts = [(eng.coerce(st, v, "real").t, eng.to_val(st, v).t) for v in vals]
+            r, rv = ts[0]
+            for t, tv in ts[1:]:
+                c = (t < r) if is_min else (t > r)
+                r, rv = z3.If(c, t, r), z3.If(c, tv, rv)
+            eng.assume(st, z3.Function("real_of_val", ValS, RealS)(rv) == r)
+            return VVal(rv)
         raise Unsupported(f"{it.site(node)}: min/max of {vals!r}")
 
     return f
